@@ -292,6 +292,7 @@ func vfC01Case(rt *rapid.T, c *ev.Collector) {
 	slowWrites := 0
 	coalesced := false
 	readSized := false
+	heldWrites := false
 	multiFrame := [2]bool{}
 
 	eps := [2]*drive.Endpoint{p.Cl, p.Sv}
@@ -318,11 +319,16 @@ func vfC01Case(rt *rapid.T, c *ev.Collector) {
 			}
 		}
 	}
-	doWrite := func(d int, n int) {
-		ep := eps[d]
-		if ep.Conn() == nil {
-			return
-		}
+	// a write in three steps, so that the call itself can run in its own
+	// goroutine (blocked at the transport) while the case goes on
+	type pendingWrite struct {
+		d, n  int
+		start int64
+		data  []byte
+		res   drive.Result
+		wn    int
+	}
+	prepWrite := func(d int, n int) *pendingWrite {
 		if iat[d] == iatParanoid {
 			if n > paranoidBudget {
 				n = paranoidBudget
@@ -332,21 +338,32 @@ func vfC01Case(rt *rapid.T, c *ev.Collector) {
 		if iat[d] != iatNone {
 			slowWrites++
 		}
-		start := p.N.Written(wire.Side(d))
-		data := vfCounterStream(byte(d), dirs[d].written, n)
+		w := &pendingWrite{d: d, n: n, start: p.N.Written(wire.Side(d)), data: vfCounterStream(byte(d), dirs[d].written, n)}
 		hist = append(hist, fmt.Sprintf("write%s(%d)", wire.Side(d), n))
-		res, wn, _ := ep.Write(data)
-		if res.Failed() {
-			rt.Fatalf("VIOL[c01-write-panic]: %s Write(%d bytes): %s\nhistory: %v", wire.Side(d), n, res, hist)
+		return w
+	}
+	callWrite := func(w *pendingWrite) { w.res, w.wn, _ = eps[w.d].Write(w.data) }
+	postWrite := func(w *pendingWrite) {
+		d, n := w.d, w.n
+		if w.res.Failed() {
+			rt.Fatalf("VIOL[c01-write-panic]: %s Write(%d bytes): %s\nhistory: %v", wire.Side(d), n, w.res, hist)
 		}
-		if res.Err != nil || wn != n {
-			rt.Fatalf("VIOL[c01-write-error]: %s Write(%d bytes) = %d, %v on a healthy connection\nhistory: %v", wire.Side(d), n, wn, res.Err, hist)
+		if w.res.Err != nil || w.wn != n {
+			rt.Fatalf("VIOL[c01-write-error]: %s Write(%d bytes) = %d, %v on a healthy connection\nhistory: %v", wire.Side(d), n, w.wn, w.res.Err, hist)
 		}
-		dirs[d].bursts = append(dirs[d].bursts, vfBurst{start, n})
+		dirs[d].bursts = append(dirs[d].bursts, vfBurst{w.start, n})
 		dirs[d].written += n
 		if n > maxPacketPayloadLength {
 			multiFrame[d] = true
 		}
+	}
+	doWrite := func(d int, n int) {
+		if eps[d].Conn() == nil {
+			return
+		}
+		w := prepWrite(d, n)
+		callWrite(w)
+		postWrite(w)
 	}
 	doRelease := func(d int, k int, label string) {
 		side := wire.Side(d)
@@ -480,6 +497,37 @@ func vfC01Case(rt *rapid.T, c *ev.Collector) {
 			release(0)
 		case a < 90:
 			release(1)
+		case a < 95:
+			// a Write that is blocked at the transport (full socket buffer) while the
+			// same endpoint's reader keeps receiving
+			d := rapid.IntRange(0, 1).Draw(rt, "heldSide")
+			if eps[d].Conn() == nil || (slowWrites >= 4 && iat[d] != iatNone) {
+				continue
+			}
+			n := rapid.SampledFrom(vfWriteSizes).Draw(rt, "heldSize")
+			side := wire.Side(d)
+			p.N.HoldWrites(side, true)
+			fin := make(chan struct{})
+			hist = append(hist, fmt.Sprintf("hold%s", side))
+			w := prepWrite(d, n)
+			go func() {
+				defer close(fin)
+				callWrite(w)
+			}()
+			if w.n > 0 && p.N.WaitHeld(side, 5*time.Second) {
+				heldWrites = true
+				for k := rapid.IntRange(1, 3).Draw(rt, "whileHeld"); k > 0; k-- {
+					release(1 - d)
+				}
+			}
+			hist = append(hist, fmt.Sprintf("unhold%s", side))
+			p.N.HoldWrites(side, false)
+			select {
+			case <-fin:
+			case <-time.After(60 * time.Second):
+				rt.Fatalf("VIOL[c01-wedge]: %s Write(%d) did not return within 60 s after the transport accepted it again\nhistory: %v\n%s", side, n, hist, wire.Stacks())
+			}
+			postWrite(w)
 		default:
 			d := rapid.IntRange(0, 1).Draw(rt, "bufSide")
 			k := rapid.SampledFrom([]int{1, 7, 1427, 65536}).Draw(rt, "bufSize")
@@ -519,6 +567,9 @@ func vfC01Case(rt *rapid.T, c *ev.Collector) {
 	if readSized {
 		cls = append(cls, "segment-of-exactly-the-read-buffer-size")
 	}
+	if heldWrites {
+		cls = append(cls, "write-blocked-at-transport-while-reading")
+	}
 	if strings.Contains(strings.Join(hist, " "), "(0)") {
 		cls = append(cls, "zero-length-write")
 	}
@@ -534,7 +585,8 @@ func vfC01Case(rt *rapid.T, c *ev.Collector) {
 func TestVerifC01Lockstep(t *testing.T) {
 	vfSetup(t)
 	c := ev.For("C01")
-	c.Rule("lockstep: real client and real server (public factories) on a gated in-memory wire; generated bridge (seed incl. tables containing 0, IAT mode, bias, bridge-line form), then up to 40 actions write(side,n)/release(direction, segment plan: 1-byte runs, 2, to a frame/burst/handshake-field boundary -1/0/+1, k, all, exactly one or two read buffers (23168 bytes) -1/0/+1); iat-mode 0 writes occasionally 23168..70000 bytes/reader buffer size, handshake bytes released by the same actions; oracle after every action at quiescence: bytes obtained are a prefix of what the peer wrote and at least the plaintext of all payload frames completely released; at the end everything is released and both streams must be complete; non-trivial = a multi-frame write, data in both directions, a release ending strictly inside a frame, and (handshake+payload coalesced in one segment or a 1-byte run across a frame header); fingerprint = configuration + action list")
+	c.Rule("lockstep: real client and real server (public factories) on a gated in-memory wire; generated bridge (seed incl. tables containing 0, IAT mode, bias, bridge-line form), then up to 40 actions write(side,n)/release(direction, segment plan: 1-byte runs, 2, to a frame/burst/handshake-field boundary -1/0/+1, k, all, exactly one or two read buffers (23168 bytes) -1/0/+1); iat-mode 0 writes occasionally 23168..70000 bytes/reader buffer size, handshake bytes released by the same actions; a Write held at the transport (blocked before the wire looks at its bytes, as on a full socket buffer) while 1-3 segments are released to the same endpoint's reader; oracle after every action at quiescence: bytes obtained are a prefix of what the peer wrote and at least the plaintext of all payload frames completely released; at the end everything is released and both streams must be complete; non-trivial = a multi-frame write, data in both directions, a release ending strictly inside a frame, and (handshake+payload coalesced in one segment or a 1-byte run across a frame header); fingerprint = configuration + action list")
+	c.Floor("write-blocked-at-transport-while-reading/lockstep", 0.03)
 	c.Assume("frame layout of a burst (payload frames of <= 1427 bytes first, padding frames after) as stated in the property's mechanism; interleavings explored at action granularity")
 	c.Floor("iat-0/lockstep", 0.15)
 	c.Floor("iat-1/lockstep", 0.15)
